@@ -262,9 +262,35 @@ func itoa(n int) string {
 
 // verifReadAll opens its own Reader on data and fetches objects 1..6; the
 // outcome of every call is rendered as text (value kind or error message).
+// verifFlakySource fails the k-th ReadAt call (k < 0: never).
+type verifFlakySource struct {
+	r      *bytes.Reader
+	calls  int
+	failAt int
+}
+
+func (f *verifFlakySource) ReadAt(p []byte, off int64) (int, error) {
+	i := f.calls
+	f.calls++
+	if i == f.failAt {
+		return 0, errVerifDisk
+	}
+	return f.r.ReadAt(p, off)
+}
+
+var errVerifDisk = &verifDiskError{}
+
+type verifDiskError struct{}
+
+func (*verifDiskError) Error() string { return "simulated disk fault" }
+
 func verifReadAll(data []byte) []string {
+	return verifReadAllFrom(&verifFlakySource{r: bytes.NewReader(data), failAt: -1}, len(data))
+}
+
+func verifReadAllFrom(src *verifFlakySource, size int) []string {
 	var out []string
-	r, err := NewReader(bytes.NewReader(data), int64(len(data)), nil)
+	r, err := NewReader(src, int64(size), nil)
 	if err != nil {
 		return []string{"open: " + err.Error()}
 	}
@@ -294,6 +320,12 @@ func Verif_C18_independent_readers() {
 	data := verifOddFile()
 	alone := verifReadAll(append([]byte{}, data...))
 	verifrt.Assert(len(alone) == 6, "file opens")
+	// another Reader, whose source fails once at a solver-chosen call, must
+	// not leave anything behind for the Readers that follow
+	probe := &verifFlakySource{r: bytes.NewReader(data), failAt: -1}
+	verifReadAllFrom(probe, len(data))
+	flaky := &verifFlakySource{r: bytes.NewReader(data), failAt: verifrt.Len("faultat", 0, probe.calls)}
+	verifReadAllFrom(flaky, len(data))
 	again := verifReadAll(append([]byte{}, data...))
 	same := len(again) == len(alone)
 	for i := range alone {
